@@ -23,7 +23,7 @@ lemma schema below is itself discharged by induction in `pyvc.selftest`
     const  cnt(K(c),lo,hi) == max(hi-lo,0) * ind(c)
 """
 import z3
-from .values import INT, ARR
+from .values import INT, ARR, BOOL
 
 SHARP, FLAT = 35, 98
 
@@ -43,6 +43,9 @@ def zmax0(e):
     return z3.If(e > 0, e, z3.IntVal(0))
 
 
+POW2 = z3.Function("is_pow2", INT, BOOL)
+
+
 class Registry(object):
     """Per-path registry of ghost terms; produces the axiom instances."""
 
@@ -52,6 +55,33 @@ class Registry(object):
         self.terms = {}      # key -> (arr, lo, hi, depth)
         self.selects = {}    # key -> (arr, idx)
         self.order = []
+        self.pow2_terms = {}  # id -> (term, depth)
+
+    def pow2(self, t, depth=0):
+        """ghost predicate: t is one of 1, 2, 4, 8, ...; defining equation instantiated at the terms that occur:
+        pow2(t) <=> t == 1 or (t >= 2 and t mod 2 == 0 and pow2(t div 2))"""
+        t = z3.simplify(t)
+        k = t.get_id()
+        if k not in self.pow2_terms or self.pow2_terms[k][1] > depth:
+            self.pow2_terms[k] = (t, depth)
+        return POW2(t)
+
+    def pow2_axioms(self):
+        out = []
+        done = set()
+        while True:
+            todo = [(k, v) for k, v in self.pow2_terms.items() if k not in done]
+            if not todo:
+                break
+            for k, (t, depth) in todo:
+                done.add(k)
+                if depth < 3:
+                    half = z3.simplify(t / 2)
+                    self.pow2(half, depth + 1)
+                    out.append(POW2(t) == z3.Or(t == 1, z3.And(t >= 2, t % 2 == 0, POW2(half))))
+                else:
+                    out.append(z3.Implies(POW2(t), t >= 1))
+        return out
 
     def _key(self, arr, lo, hi):
         return (arr.get_id(), z3.simplify(lo).get_id(), z3.simplify(hi).get_id())
@@ -78,7 +108,7 @@ class Registry(object):
             self.selects[k] = (arr, idx)
 
     def axioms(self):
-        out = []
+        out = self.pow2_axioms()
         done = set()
         i = 0
         # the list grows while we iterate (children of unfold/store)
